@@ -40,8 +40,19 @@ def kind_of(v):
 	return None if s is None else s.kind
 
 
+class _Pos(int):
+	"""an int subclass (like an IntEnum member): a list takes it as an index"""
+
+
 def run_index(chk, spec):
 	vals, i = spec["values"], spec["i"]
+	if spec.get("as") == "int-subclass":
+		i = _Pos(i)
+	elif spec.get("as") == "bool" and i in (0, 1):
+		i = bool(i)
+	elif spec.get("as") == "intenum":
+		import enum
+		i = enum.IntEnum("Pos", {"P": i}).P if i != 0 else enum.IntEnum("Pos", {"Z": 0}).Z
 	v = mkvec(spec)
 	o = call(lambda: v[i])
 	chk.judged("index", ("index", len(vals), i))
@@ -579,6 +590,42 @@ def run_self_compare(chk, spec):
 
 RUNNERS.update({"self_compare": run_self_compare})
 
+def run_rows_iter(chk, spec):
+	"""every row handed out by iteration is a vector: row[slice], row[mask] and row[j] equal list slicing / masking / indexing of THAT row"""
+	ts = spec["table"]
+	t = common.mk_table(ts)
+	nc = len(ts["cols"])
+	n = len(ts["cols"][0])
+	rows = [[c[i] for c in ts["cols"]] for i in range(n)]
+	sl = slice(*spec["s"])
+	mask = [(i + spec["phase"]) % 2 == 0 for i in range(nc)]
+	chk.judged("rows-held", ("rows-iter", n, nc, spec["s"], spec["what"]))
+	got = []
+	def body():
+		for r in t:
+			if spec["what"] == "slice":
+				got.append(list(r[sl]))
+			elif spec["what"] == "mask":
+				got.append(list(r[mask]))
+			elif spec["what"] == "slice-then-index":
+				got.append((list(r[sl]), [r[j] for j in range(nc)]))
+			else:
+				got.append((r.copy()._underlying if hasattr(r.copy(), "_underlying") else tuple(r.copy()), list(r[sl])))
+	o = call(body)
+	if not o.ok:
+		chk.fail("row selection follows Python sequence semantics", f"rows-iter/raises/{spec['what']}/{type(o.exc).__name__}", f"{spec!r}: {o!r}")
+		return
+	for i, g in enumerate(got):
+		row = rows[i]
+		exp = {"slice": lambda: row[sl], "mask": lambda: [x for x, m in zip(row, mask) if m], "slice-then-index": lambda: (row[sl], list(row)), "copy-then-slice": lambda: (tuple(row), row[sl])}[spec["what"]]()
+		ok = M.same_list(g, exp) if spec["what"] in ("slice", "mask") else (M.same_list(list(g[0]), list(exp[0])) and M.same_list(list(g[1]), list(exp[1])))
+		if not ok:
+			chk.fail("v[slice] equals list slicing (for every row an iteration hands out)", f"rows-iter/wrong/{spec['what']}/{'first-row' if i == 0 else 'later-row'}", f"{spec!r}: row {i} = {row!r}: got {g!r}, expected {exp!r}")
+			return
+
+
+RUNNERS.update({"rows_iter": run_rows_iter})
+
 
 def run(chk):
 	recompute.add_cases(chk, "C07")
@@ -598,6 +645,9 @@ def run(chk):
 		for i in range(-7, 8):
 			vals = V.column(rng, rng.choice(kinds), n, "low", small=True)
 			chk.case("index", {"values": vals, "name": None, "i": i}, "index")
+			if i in (-1, 0, 1, 2, 7):
+				for how in ("int-subclass", "bool", "intenum"):
+					chk.case("index", {"values": vals, "name": None, "i": i, "as": how}, "index-int-subclass")
 		if n >= 1:
 			for m in (n - 1, n, n + 1):
 				if m == 0:
@@ -696,6 +746,9 @@ def run(chk):
 		if len(set(idxs)) == 1:
 			idxs[0] = (idxs[0] + 1) % n
 		chk.case("rows_held", {"table": ts, "idxs": idxs, "touch": rng.choice(["nothing", "shape", "cell", "iterate", "other-row"])}, "rows-held")
+	for _ in range(120 if chk.quick() else 600):
+		ts = gen_table(rng, nrows=rng.choice([2, 3, 4]), ncols=rng.choice([2, 3, 4]))
+		chk.case("rows_iter", {"table": ts, "s": (rng.choice(STARTS), rng.choice(STARTS), rng.choice(STEPS)), "phase": rng.choice([0, 1]), "what": rng.choice(["slice", "mask", "slice-then-index", "copy-then-slice"])}, "rows-iter")
 	# long vectors / tables (library fast paths by size)
 	for n in ((1001, 1500) if chk.quick() else (1000, 1001, 1002, 1500, 4000)):
 		for kind in ("int", "str", "float", "date"):
@@ -727,6 +780,11 @@ def run(chk):
 		form = rng.choice(["name", "int", "names", "slice"])
 		cols = [rng.randrange(nc)] if form in ("name", "int") else ([rng.randrange(nc) for _ in range(rng.choice([1, 2]))] if form == "names" else (rng.choice([None, 0, 1]), rng.choice([None, nc, 1]), None))
 		chk.case("table_2d", {"table": ts, "s": (rng.choice(STARTS), rng.choice(STARTS), rng.choice(STEPS)), "colform": form, "cols": cols, "order": rng.choice(["rows-first", "cols-first"])}, "table-2d")
+	near = {"names": ["amt", "amt", "a b", "c"], "cols": [[1, 2], [3, 4], [5, 6], [7, 8]]}
+	for missing in ("amt__01", "amt__\u0661", "a b__2", "amt__2", "amt__3", "amt__-1", "amt__1 ", " amt__1", "a-b__2", "a_b__02", "amt__1__1", "amt___1", "col0_", "col_0", "c__03", "amt__+1", "amt__1.0"):
+		chk.case("table_missing", {"table": near, "cols": [missing], "single": True, "pos": "first"}, "table-missing-near-accessor")
+		chk.case("table_missing", {"table": near, "cols": [missing], "single": False, "pos": "first"}, "table-missing-near-accessor")
+		chk.case("table_missing", {"table": near, "cols": ["c", missing], "single": False, "pos": "last"}, "table-missing-near-accessor")
 	for _ in range(60 if chk.quick() else 300):
 		ts = gen_table(rng, nrows=rng.choice([1, 2, 3]))
 		k = rng.choice([1, 2, 3])
